@@ -541,6 +541,7 @@ type Contract struct {
 	ModAny      bool   // no modifies clause given => conservative for non-pure functions
 	HasModifies bool
 	Reads       []string
+	ReadLocs    []Expr // location footprint of a pure function (frame axiom between heap versions)
 	Loops       map[int]*LoopContract
 	Lets        []LetDef
 	Params      []string // optional explicit parameter names (externals)
@@ -703,7 +704,27 @@ func ParseContractText(path, pkgPath, text string, external bool) (*ContractFile
 		case "params":
 			cur.Params = strings.Fields(strings.ReplaceAll(rest, ",", " "))
 		case "reads":
-			cur.Reads = strings.Fields(strings.ReplaceAll(rest, ",", " "))
+			// kinds (Int, Str, Ref, Slice, Bool, nothing, MD:Str ...) or location expressions (*p, p.f, ...)
+			for _, part := range splitTopLevel(strings.ReplaceAll(rest, " ", ",")) {
+				if part == "" {
+					continue
+				}
+				if isKindName(part) {
+					cur.Reads = append(cur.Reads, part)
+					if cur.Reads == nil {
+						cur.Reads = []string{}
+					}
+					continue
+				}
+				e, err := ParseExpr(part)
+				if err != nil {
+					return nil, fail(err)
+				}
+				cur.ReadLocs = append(cur.ReadLocs, e)
+			}
+			if cur.Reads == nil && len(cur.ReadLocs) == 0 {
+				cur.Reads = []string{}
+			}
 		case "requires", "ensures":
 			tags, label, src := parseTagsLabel(rest)
 			e, err := ParseExpr(src)
@@ -930,4 +951,12 @@ func parseSpecFn(r string) (*SpecFn, error) {
 		return nil, fmt.Errorf("spec fn needs a result type")
 	}
 	return sf, nil
+}
+
+func isKindName(s string) bool {
+	switch s {
+	case "Int", "Str", "Ref", "Slice", "Bool", "Real", "nothing":
+		return true
+	}
+	return strings.Contains(s, ":") || strings.HasPrefix(s, "Opq")
 }
